@@ -204,11 +204,11 @@ class Env:
     chaos:   probability weight (0..100) of dropping the type discipline at a position (G-syn)
     """
 
-    def __init__(self, this=None, aliases=None, qvars=None, chaos=0, reserved=(), qtypes=None, allow_f12=False):
+    def __init__(self, this=None, aliases=None, qvars=None, chaos=0, reserved=(), qtypes=None, allow_f12=True):
         self.this = this
-        # type at which each quantified-variable name has been bound anywhere in this predicate:
-        # sibling quantifiers may reuse a name, but only at the same element type (finding F12:
-        # the library groups references by printed form across sibling binders)
+        # type at which each quantified-variable name has been bound anywhere in this predicate; with
+        # allow_f12=False sibling quantifiers reuse a name only at the same element type (finding F12,
+        # repaired: the library used to group references by printed form across sibling binders)
         self.qtypes = {} if qtypes is None else qtypes
         self.allow_f12 = allow_f12
         self.aliases = dict(aliases or {})
